@@ -418,6 +418,20 @@ def _exc_isinst(a, b):
     return exc_isinstance(a, b)
 
 
+def b_issubclass(ip, args, kw, ctx):
+    a, b = args
+    I = _I()
+    bs = b if isinstance(b, tuple) else (b,)
+    if isinstance(a, I.ExcClass):
+        for c in bs:
+            if not isinstance(c, I.ExcClass):
+                raise _uns("issubclass against a non-exception class")
+            if _exc_isinst(a.name, c.name):
+                return True
+        return False
+    raise _uns("issubclass on " + type(a).__name__)
+
+
 def b_type(ip, args, kw, ctx):
     v = args[0]
     if isinstance(v, Obj):
@@ -1090,7 +1104,7 @@ def install(ip):
     b = ip.builtins
     for name, fn, pt in [
         ("len", b_len, None), ("int", b_int, int), ("float", b_float, float), ("str", b_str, str),
-        ("divmod", b_divmod, None), ("round", b_round, None), ("isinstance", b_isinstance, None),
+        ("divmod", b_divmod, None), ("round", b_round, None), ("isinstance", b_isinstance, None), ("issubclass", b_issubclass, None),
         ("type", b_type, type), ("hasattr", b_hasattr, None), ("map", b_map, None), ("filter", b_filter, None),
         ("list", b_list, list), ("tuple", b_tuple, tuple), ("dict", b_dict, dict), ("set", b_set, set),
         ("sum", b_sum, None), ("sorted", b_sorted, None), ("min", b_min, None), ("max", b_max, None),
